@@ -45,6 +45,9 @@ def specs(family, tier):
         S('ext-b-ext', [st('c0'), st('minfd', builtin=True), st('c2')])
         S('b', [st('minfd', builtin=True)])
         S('b-capture', [st('minfd', builtin=True)], capture=True)
+        S('b-quiet', [st('alias', builtin=True)], quiet=True)            # a builtin with nothing to print (empty alias table)
+        S('b-quiet-out', [st('alias', [(1, '>', 'f1')], builtin=True)], quiet=True)
+        S('ext-b-quiet', [st('c0'), st('alias', builtin=True)], quiet=True)
     if family == 'redir':
         R = [
             ('out', [(1, '>', 'f1')]), ('app', [(1, '>>', 'f1')]), ('err', [(2, '>', 'f1')]), ('errapp', [(2, '>>', 'f1')]),
@@ -224,7 +227,7 @@ def check(I, spec, opts, os_, leaf, waited, sh, tty, capture):
                 expect(I, st_ != 0 if not is_sym(st_) else False, 'unopenable-target-status-zero', dict(status=str(st_)))
             else:
                 wr = [objkey(w[0], n) for w in os_.wrote if w[2] and w[2] != lit('\n')]
-                expect(I, wr == [fout], 'builtin-output-target', dict(wrote=wr, want=fout))
+                expect(I, wr == ([] if spec.get('quiet') else [fout]), 'builtin-output-target', dict(wrote=wr, want=fout))
                 opened = [(''.join(chr(c) for c in pth), 'a' if m.startswith('a') else 'w') for pth, m, ok in os_.opened if pth != lit('/dev/null')]
                 want_open = [(o[1], o[2]) for o in opens]
                 expect(I, sorted(set(opened)) == sorted(set(want_open)), 'builtin-files-opened', dict(opened=opened, want=want_open))
@@ -264,7 +267,7 @@ def check(I, spec, opts, os_, leaf, waited, sh, tty, capture):
         code = leaf['exit']
         if s['builtin'] and not touches_bad:
             wr = [objkey(w[0], n, here_id) for w in os_.wrote if w[2] and w[2] != lit('\n')]
-            expect(I, wr == [fout], 'builtin-output-target', dict(stage=k, wrote=wr, want=fout))
+            expect(I, wr == ([] if spec.get('quiet') else [fout]), 'builtin-output-target', dict(stage=k, wrote=wr, want=fout))
         elif touches_bad:
             expect(I, code != 0 if not is_sym(code) else False, 'unopenable-target-status-zero', None)
         elif spec.get('notfound'):
